@@ -14,8 +14,11 @@ import (
 // the last bytes or by a separate call).  Observed: the events yielded and the error yielded, if any.
 // The injected error is a value of any character (scriptedErr in connect.go: plain, Temporary/Timeout,
 // wrapping io.EOF / io.ErrUnexpectedEOF / a deadline error, *net.OpError / *url.Error / *net.DNSError as a
-// network produces them, values that are or match context.DeadlineExceeded / context.Canceled);
-// whatever it looks like it is a read error and must be yielded as itself (projected by identity).
+// network produces them, values that are or match context.DeadlineExceeded / context.Canceled, values that ARE a
+// well-known sentinel - io.ErrUnexpectedEOF as net/http returns it for a short body, the library's own
+// ErrUnexpectedEOF, bufio.ErrTooLong, ... - or wrap / match one through an Is method);
+// whatever it looks like it is a read error and must be yielded as itself (projected by identity: == for the
+// sentinels - sse.ErrUnexpectedEOF and io.ErrUnexpectedEOF are different values).
 
 func init() { families["read_c11"] = family{gen: genReadC11, exec: execReadC11} }
 
@@ -59,6 +62,7 @@ func genReadC11(c *Ctx) {
 	emit := func(body string, e int, withLast bool) {
 		ending := val.L(val.N(0))
 		switch e {
+		case 0: // a clean end
 		case 1:
 			ending = val.L(val.N(1), val.N(connErrIdx(r, c, 100)))
 		case 2: // a read error that wraps io.EOF
